@@ -30,7 +30,9 @@ var budgetBlown bool
 // BudgetExceeded is the panic value raised by Yield when the tick budget is exhausted.
 type BudgetExceeded struct{ Limit uint64 }
 
-func (b BudgetExceeded) Error() string { return fmt.Sprintf("simrt: tick budget %d exhausted", b.Limit) }
+func (b BudgetExceeded) Error() string {
+	return fmt.Sprintf("simrt: tick budget %d exhausted", b.Limit)
+}
 
 // SetBudget arms a budget of n ticks from now (n==0 disarms).
 //
@@ -90,21 +92,21 @@ type Switch struct {
 
 // Sched is a simulation in progress.
 type Sched struct {
-	tasks    []*Task
-	cur      *Task
-	gap      int64 // yields until the next preemption point (<0: never)
-	NextGap  func() int64         // draws the next gap (ticks until next preemption); <0 = never again
-	Pick     func(n int) int      // picks among n runnable tasks
-	finished chan string          // "" = all done, otherwise deadlock description
-	wg       sync.WaitGroup
-	Switches []Switch
-	Seq      uint64 // global event sequence (invoke/return stamps)
-	MaxSwitchLog int
-	NSwitches uint64
-	NPreempt  uint64 // switches that happened inside a task (preemption or blocking), not at task exit
-	Contended uint64 // lock acquisitions that had to block
+	tasks          []*Task
+	cur            *Task
+	gap            int64           // yields until the next preemption point (<0: never)
+	NextGap        func() int64    // draws the next gap (ticks until next preemption); <0 = never again
+	Pick           func(n int) int // picks among n runnable tasks
+	finished       chan string     // "" = all done, otherwise deadlock description
+	wg             sync.WaitGroup
+	Switches       []Switch
+	Seq            uint64 // global event sequence (invoke/return stamps)
+	MaxSwitchLog   int
+	NSwitches      uint64
+	NPreempt       uint64 // switches that happened inside a task (preemption or blocking), not at task exit
+	Contended      uint64 // lock acquisitions that had to block
 	ReaderOvertake uint64
-	lastSite uint32
+	lastSite       uint32
 }
 
 var sched *Sched
